@@ -339,10 +339,17 @@ def generate(info, combo, mapmode, sites, outdir, workdir, keep=False, relocate=
         env["VERIF_SITES"] = "@" + sf
     else:
         env.pop("VERIF_SITES", None)
+    cwd = workdir
+    if relocate:
+        # ... and the process differs in everything else a process brings along that is not one of
+        # the generator's inputs: working directory (all paths given are absolute), time zone,
+        # locale, home directory, user name
+        cwd = os.path.dirname(info["generator"])
+        env.update({"TZ": "Pacific/Kiritimati", "LANG": "tr_TR.UTF-8", "LC_ALL": "tr_TR.UTF-8", "HOME": cwd, "USER": "someone-else", "PWD": cwd})
     try:
         for attempt in range(50):
             try:
-                p = subprocess.run(cmd, cwd=workdir, env=env, stdout=subprocess.PIPE, stderr=subprocess.PIPE, text=True, timeout=900)
+                p = subprocess.run(cmd, cwd=cwd, env=env, stdout=subprocess.PIPE, stderr=subprocess.PIPE, text=True, timeout=900)
                 break
             except OSError as e:
                 if e.errno != errno.ETXTBSY or attempt == 49:
@@ -636,7 +643,7 @@ def run_combo(args):
                 if rc != 0 or got != ref:
                     f, detail = first_diff(refdir, out, ref, got)
                     res["violations"].append({"combo": list(combo), "map": "canon", "sites": None, "rc": rc, "file": f, "environment": "relocated-binary",
-                                              "detail": "the same generator binary copied to another path produces different output; " + detail})
+                                              "detail": "the same generator binary at another path, run from another working directory with another time zone, locale, home and user, produces different output; " + detail})
         if not res["violations"] and flagset in INPROC_FLAGSETS:
             inproc_leg(info, combo, tier, r, workdir, res)
         res["wall_s"] = round(time.time() - t0, 2)
